@@ -123,7 +123,7 @@ func (core *JApiCore) BuildResourceMethodsPathVariables() *jerr.JApiError {
 
 		// Check that all path properties in schema is exists in the path.
 		if len(pp) > 0 {
-			ss := core.getPropertiesNames(pp)
+			ss := core.getPropertiesNames(v.schema.ContentJSight.Children, pp)
 			return v.pathDirective.KeywordError(fmt.Sprintf("Has unused parameters %q in schema", ss))
 		}
 	}
@@ -172,15 +172,22 @@ func (*JApiCore) propertiesToMap(pp []*catalog.SchemaContentJSight) map[string]*
 	return res
 }
 
-func (*JApiCore) getPropertiesNames(pp map[string]*catalog.SchemaContentJSight) string {
+// getPropertiesNames returns the names of the properties from pp, in the order
+// of their definition in the schema.
+func (*JApiCore) getPropertiesNames(
+	all []*catalog.SchemaContentJSight,
+	pp map[string]*catalog.SchemaContentJSight,
+) string {
 	if len(pp) == 0 {
 		return ""
 	}
 
 	buf := strings.Builder{}
-	for k := range pp {
-		buf.WriteString(k)
-		buf.WriteString(", ")
+	for _, p := range all {
+		if _, ok := pp[*(p.Key)]; ok {
+			buf.WriteString(*(p.Key))
+			buf.WriteString(", ")
+		}
 	}
 	return strings.TrimSuffix(buf.String(), ", ")
 }
